@@ -151,3 +151,18 @@ Lemma witness_seed_recycle :
   nnew (final src_seed_recycle cfg_recycle sched_recycle) = 2%nat /\
   gave (final src_tree cfg_recycle sched_recycle) = false /\ g_ended (summ src_tree cfg_recycle sched_recycle) = true.
 Proof. vm_compute. repeat split; reflexivity. Qed.
+
+(* the global timer callback that goes on after a lost CAS unless the response has started downstream (switch set back): the
+   in-time response is in (accepted, CAS held), the global timer expires before onUpstreamHeaders ran: the answered stream is
+   reset, UpstreamGlobalTimeout raised, processError of phase UpFilter records a 504 and leaves - no reply, never cleaned *)
+Definition src_global_goes_on : srcp := src_tree <| global_lost_cas_stops := false |>.
+Definition sched_answered_then_global : list step :=
+  repeat Worker 12 ++ [Env (EvUpResp 0 200 false false); Worker; Env EvGlobal] ++ repeat Worker 8.
+Lemma witness_global_after_answer :
+  wdone (final src_global_goes_on plain_cfg sched_answered_then_global) = true /\
+  cleaned (final src_global_goes_on plain_cfg sched_answered_then_global) = false /\
+  g_started (summ src_global_goes_on plain_cfg sched_answered_then_global) = false /\
+  quiescent (final src_global_goes_on plain_cfg sched_answered_then_global) = true /\
+  cleaned (final src_tree plain_cfg sched_answered_then_global) = true /\
+  g_reply_kind (summ src_tree plain_cfg sched_answered_then_global) = Some (KUp, 200).
+Proof. vm_compute. repeat split; reflexivity. Qed.
